@@ -20,6 +20,8 @@ META = {
         "address grammar: T f:e[/b][{c}] for N,B,F,L; S:e[/b]; I:e[.w][/b], O:e[.w][/b]; Bf/n; Tf:e.SUB, Cf:e.SUB (reads); case-insensitive",
         "DF1 typed logical addressing: element size 2 (N,B,S,I,O), 4 (F,L), 6 (T,C); a field value of 0xFF escapes a 16-bit value (1770-6.5.16)",
         "Tag.tag / Tag.type of SLC results are not constrained by the property",
+        "bit form of a long (L f:e/b): reads are checked (bit b of the element's low word); writes are not constrained (the framing of a one-word masked write into a 4-byte element is not settled by the documentation; the library's attempt is refused by the reference table); bit form of a float is not constrained",
+        "refusals: the controller answers a command with every non-zero STS byte; a refused write must report failure and leave the table unchanged",
     ],
 }
 ESZ = slc.ELEM_SIZE
@@ -46,7 +48,7 @@ def new_table(image):
 
 
 class Addr:
-    __slots__ = ("typ", "file", "elem", "sub", "bit", "count", "kind")
+    __slots__ = ("typ", "file", "elem", "sub", "bit", "count", "kind", "read_only_check")
 
 
 def ref_parse(text):
@@ -63,9 +65,12 @@ def ref_parse(text):
         a.count = int(m.group(5)) if m.group(5) is not None else 1
         if not (1 <= a.file <= 255 and a.elem <= 255 and (a.bit is None or a.bit <= 15) and a.count >= 1):
             return None
-        if a.bit is not None and a.typ in ("F", "L"):
+        if a.bit is not None and a.typ == "F":
             return "unconstrained"
         a.kind = "bit" if a.bit is not None else "word"
+        # a bit of a long: reading is unambiguous (bit b of the element's low word); how a masked write of one word of a
+        # 4-byte element must be framed is not settled by the documentation -> reads are checked, writes are not constrained
+        a.read_only_check = a.bit is not None and a.typ == "L"
         return a
     m = re.fullmatch(r"B(\d{1,3})/(\d{1,4})", s)
     if m:
@@ -183,7 +188,7 @@ def addresses(tier):
                 for c in (2, 3, 10):
                     if e + c <= 256:
                         out.append((f"{typ}{fno}:{e}{{{c}}}", f"{typ}/count"))
-                if typ in ("N", "B"):
+                if typ in ("N", "B", "L"):  # bits 0..15 of a long are the bits of its low word
                     for b in range(16):
                         out.append((f"{typ}{fno}:{e}/{b}", f"{typ}/bit"))
     for fno in (3, 10):
@@ -278,7 +283,7 @@ def values_for(a, tier, text):
 
 
 def shards(tier, seed):
-    return [("addr", part, image) for part in range(12) for image in (0, 1)] + [("invalid",), ("count-max",)]
+    return [("addr", part, image) for part in range(12) for image in (0, 1)] + [("invalid",), ("count-max",), ("refused",)]
 
 
 def describe(tier, seed):
@@ -338,7 +343,7 @@ def run_shard(shard, tier, seed):
             for clause, detail in probs:
                 rep.violation(f"{cls}/{clause}", f"read({text!r}) [image {image}]: {detail}", {"kind": "addr", "text": text, "op": "read", "image": image, "value": None})
             # ---- write (+ read back); timers/counters are read-only in the property
-            if a.typ in ("T", "C"):
+            if a.typ in ("T", "C") or getattr(a, "read_only_check", False):
                 continue
             for v in values_for(a, tier, text):
                 pre = dev.snapshot()
@@ -368,6 +373,35 @@ def run_shard(shard, tier, seed):
                 for clause, detail in probs:
                     rep.violation(f"{cls}/{clause}", f"write({text!r}, {v!r:.40}) [image {image}]: {detail}", {"kind": "addr", "text": text, "op": "write", "image": image, "value": v})
         rep.sample({"part": part, "image": image, "addresses": len(alladdr) // 12, "example": alladdr[part][0]})
+        call(d.close)
+        w.__exit__()
+    elif kind == "refused":
+        # the controller answers with a PCCC status: every non-zero STS byte (local 0x01..0x0F, remote 0x10..0xF0, mixed), for reads and
+        # writes of every address form; a refused write reports failure and leaves the table alone, a refused read is falsy
+        dev, t, w, d, r = open_slc(0)
+        forms = [("N7:3", 5), ("N7:3/5", True), ("N9:2{3}", [1, 2, 3]), ("B3/21", True), ("F8:1", 1.5), ("L11:2", 70000), ("S:1/3", True), ("O:2.1", 9), ("I:1/4", False)]
+        for sts in range(1, 256):
+            for text, v in forms:
+                for op in ("read", "write"):
+                    pre = dev.snapshot()
+                    dev.refuse_next = sts
+                    out = call(d.read, text) if op == "read" else call(d.write, (text, v))
+                    used = dev.refuse_next is None
+                    dev.refuse_next = None
+                    probs = []
+                    if out[0] not in ("ok", "pycomm"):
+                        probs.append(("foreign-exception", f"{out!r:.100}"))
+                    elif used and out[0] == "ok" and bool(out[1]):
+                        probs.append(("refusal-accepted", f"the controller refused the command with STS {sts:#04x} but the call reports success: {out[1]!r:.80}"))
+                    elif used and out[0] == "ok" and not (isinstance(out[1].error, str) and out[1].error):
+                        probs.append(("empty-error", f"falsy result without an error text: {out[1]!r:.80}"))
+                    if dev.snapshot() != pre:
+                        probs.append(("memory", "the data table changed although the command was refused"))
+                    rep.case((text, op, "refused", sts), nontrivial=used, outcome="refused-ok" if not probs else probs[0][0])
+                    for clause, detail in probs:
+                        rep.violation(f"refused/{op}/{clause}/{'local' if sts < 0x10 else 'remote' if not sts & 0x0F else 'mixed'}", f"{op}({text!r}) with STS {sts:#04x}: {detail}", {"kind": "refused"})
+                    dev.restore(pre)
+        rep.sample({"refused_status_bytes": "1..255", "forms": [f for f, _ in forms]})
         call(d.close)
         w.__exit__()
     elif kind == "invalid":
@@ -409,6 +443,11 @@ def run_shard(shard, tier, seed):
 
 
 def replay(r):
+    if r.get("kind") == "refused":
+        rep = run_shard(("refused",), "quick", 0)
+        for s_, vs in rep.violations.items():
+            print("  violates:", s_, "::", vs[0].msg[:300])
+        return not rep.violations
     dev, t, w, d, o = open_slc(r["image"])
     text = r["text"]
     a = ref_parse(text)
